@@ -146,11 +146,11 @@ Section M2.
 
   Theorem run_type_safe_main : forall orcs i o s ops st oks emit input,
     run_ops u orcs 0 (init_graph i o s) ops = (st, oks) -> g_compiled st = true ->
-    emit_ok u emit st -> has_type u input (g_in st) = true ->
+    emit_ok u emit st -> hret_ok u st -> has_type u input (g_in st) = true ->
     run u (assert_type u) emit st input <> RPanicRec /\
     run u (assert_type u) emit st input <> RPanicEsc.
   Proof.
-    intros orcs i o s ops st oks emit input H C EM HI.
+    intros orcs i o s ops st oks emit input H C EM HR HI.
     apply run_safe; auto. split; [eapply reach_inv; exact H | exact C].
   Qed.
 End M2.
@@ -176,11 +176,12 @@ Section M3.
   (* the whole run *)
   Theorem may_run_main : forall orcs i o s ops st oks emit input,
     run_ops u orcs 0 (init_graph i o s) ops = (st, oks) -> g_compiled st = true ->
-    emit_ok u emit st -> has_type u input (g_in st) = true -> choices_valid st ->
+    emit_ok u emit st -> hret_ok u st -> has_type u input (g_in st) = true -> choices_valid st ->
     (run u (assert_type u) emit st input = RTypeErr <->
-     exists done, In done (run_dones u emit st input) /\ step_mismatch u st done = true).
+     (exists done, In done (run_dones u emit st input) /\ step_mismatch u st done = true) \/
+     (exists tasks, In tasks (run_tasks u emit st input) /\ exec_mismatch u st tasks = true)).
   Proof.
-    intros orcs i o s ops st oks emit input H C EM HI V.
+    intros orcs i o s ops st oks emit input H C EM HR HI V.
     apply run_type_error_iff; auto.
     - split; [eapply reach_inv; exact H | exact C].
     - eapply reach_inv2; exact H.
